@@ -522,6 +522,31 @@ func genC07SynthSmall(x *Ctx) {
 	}
 }
 
+// c07.randstart: the first value of very many fresh random sequencers (an off-by-one in the range
+// shows in one of 32768 draws, so a few thousand sequencers would not do).
+func genC07RandStart(x *Ctx) {
+	for i, n := 0, x.N(16, 64); i < n; i++ {
+		x.Case(func(c *Case) {
+			n := 200000
+			if x.Thorough() {
+				n = 2000000
+			}
+			lo, hi := 1<<30, -1
+			for k := 0; k < n; k++ {
+				v := int(rtp.NewRandomSequencer().NextSequenceNumber())
+				if v < lo {
+					lo = v
+				}
+				if v > hi {
+					hi = v
+				}
+			}
+			c.I.Nat(n)
+			c.O.Nat(n).Nat(lo).Nat(hi)
+		})
+	}
+}
+
 func genC07Facts(x *Ctx) {
 	x.Case(func(c *Case) {
 		f := extractSeqFacts(pktzRepoDir())
@@ -818,6 +843,7 @@ func init() {
 	register("c07.run", "C07", genC07Run)
 	register("c07.hist", "C07", genC07Hist)
 	register("c07.facts", "C07", genC07Facts)
+	register("c07.randstart", "C07", genC07RandStart)
 	register("c07.synth", "C07", genC07Synth)
 	register("c07.synthbad", "C07", genC07SynthBad)
 	register("c07.synthsmall", "C07", genC07SynthSmall)
